@@ -20,7 +20,7 @@ End(kind) == /\ done = "no"
              /\ done' = kind
              /\ result' = IF kind \in Fails THEN y ELSE [x EXCEPT !.y = CollapseYield(@, kind)]
              /\ UNCHANGED <<x, y, hist>>
-Kinds == {"halt0", "halt32", "halt5", "trap", "oog"}
+Kinds == {"halt0", "halt32", "halt5", "halt33", "trap", "oog"}
 Next == (\E c \in Alphabet : Call(c)) \/ (\E k \in Kinds : End(k))
 Spec == Init /\ [][Next]_vars
 
